@@ -13,7 +13,7 @@ import (
 
 func init() {
 	register("C38", propMeta{
-		Explanation:  "Decides one clause - which storage the process-wide L1 node cache can share with what the read API hands out: (R1) Node.CopyTo is the materialisation point between the cache's clone and a transaction's node; Item.Value is a pointer, so a plain slice copy of the slots leaves every copy pointing at the same value object: CopyTo (or the read API) must detach Item.Value - allocate a fresh value per slot - otherwise an in-place mutation of a value obtained from GetCurrentValue / GetCurrentItem is seen by every later transaction served from the cache; (R2) the cache hands out materialised copies only: every node value returned by an L1Cache method is nil, the caller's own target object, or the result of materializeCacheValue (CopyTo / decode into the target) - never the cached instance itself, into which a read would write fetched values; (R3) what is stored in the cache is a clone (cloneCacheNodeValue) of the caller's node, never the caller's instance.",
+		Explanation:  "Decides one clause - which storage the process-wide L1 node cache can share with what the read API hands out: (R1) Node.CopyTo is the materialisation point between the cache's clone and a transaction's node; Item.Value is a pointer, so a plain slice copy of the slots leaves every copy pointing at the same value object: CopyTo (or the read API) must detach Item.Value - allocate a fresh value per slot - otherwise an in-place mutation of a value obtained from GetCurrentValue / GetCurrentItem is seen by every later transaction served from the cache; (R2) the cache hands out materialised copies only: every node value returned by an L1Cache method is nil, the caller's own target object, or the result of materializeCacheValue (CopyTo / decode into the target) - never the cached instance itself, into which a read would write fetched values; (R3) what is stored in the cache is a clone (cloneCacheNodeValue) of the caller's node, never the caller's instance. (R4) the fetched-value marker is written through a pointer into the node's slot, never into a local copy of the item.",
 		DoesNotCover: "Aliasing inside decoded values themselves (encoding layers that pass byte slices through), values of stores whose items are fetched from a separate segment on every read, and mutation of keys are not decided; no points-to analysis is available, so this is a copy-shape argument.",
 	}, runC38)
 }
